@@ -72,6 +72,11 @@ def header_layouts():
                 continue
             yield "type:%s=%s" % (REQ[pos], t), [mem(n, t if i == pos else "uint16") for i, n in enumerate(REQ)], []
     yield "type:all=uint64+counters", [mem(n, "uint64") for n in REQ] + [mem("numGroups", "uint64"), mem("numVarDataFields", "uint32")], []
+    # 6b. signed member types (sbeppc accepts any integer type for message header members; the fillers brace-initialise them)
+    for pos in range(4):
+        for t in ("int16", "int64"):
+            yield "type:%s=%s" % (REQ[pos], t), [mem(n, t if i == pos else "uint16") for i, n in enumerate(REQ)], []
+    yield "type:all=int32+counters", [mem(n, "int32") for n in REQ] + [mem("numGroups", "int8"), mem("numVarDataFields", "int16")], []
 
 
 def header_schemas(byte_order="littleEndian"):
